@@ -26,6 +26,10 @@ RULES = {
     "containers are restored wholesale"
     " ; P0: the undo code is in a finally (in call_onnx_api or in the context-manager helper it enters)",
     "R5": "passes declaring changes_input = False write model state only through the R4 protocol",
+    "R8": "a name is erased only from an output that was tested for use: wherever a pass sets `<output>.name = \"\"`, that "
+    "very output (the same loop variable, or every output position the erasing loop ranges over) is covered by a use test "
+    "(`.uses()` and graph-output membership) - an output position that is blanked but not tested (slice or index set one "
+    "short) loses a name that a consumer or the graph's outputs still refer to",
     "R7": "fresh snapshots (shared rule S7): a frozenset/set/tuple/list/dict copy of a model collection taken before a loop "
     "and consulted inside it for a decision (membership, lookup - also in a helper that receives it) is not written by "
     "that loop (helpers that receive the owner included), except for adding the loop's own item after testing that item",
@@ -33,7 +37,7 @@ RULES = {
     "unconditionally before its first use in call()/requires(), so a reused pass object (Sequential, PassManager) does to a "
     "model exactly what a fresh one does",
 }
-FLOORS = {"R1": 18, "R2": 40, "R3": 10, "R4": 4, "R5": 1, "R6": 8, "R7": 5}
+FLOORS = {"R1": 18, "R2": 40, "R3": 10, "R4": 4, "R5": 1, "R6": 8, "R7": 5, "R8": 2}
 EXPLANATION = (
     "For every pass class found under onnx_ir.passes: CFG queries over `call` and every helper it reaches that "
     "writes model state (effect summaries with root tags), relating each write to the flag variables that reach "
@@ -702,6 +706,79 @@ def rule_r5(ctx, passes, ef):
     ctx.require(n >= 1, "no side-effect-only pass found")
 
 
+def _const_ints(e):
+    """Set of ints a constant tuple/list/range/slice expression ranges over, or None."""
+    if isinstance(e, (ast.Tuple, ast.List)) and all(isinstance(x, ast.Constant) and isinstance(x.value, int) for x in e.elts):
+        return {x.value for x in e.elts}
+    if isinstance(e, ast.Call) and dotted_of(e.func) == "range" and all(isinstance(a, ast.Constant) for a in e.args) and 1 <= len(e.args) <= 2:
+        a = [x.value for x in e.args]
+        return set(range(*a))
+    if isinstance(e, ast.Slice) and isinstance(e.lower, ast.Constant) and isinstance(e.upper, ast.Constant) and e.step is None:
+        return set(range(e.lower.value, e.upper.value))
+    if isinstance(e, ast.Constant) and isinstance(e.value, int):
+        return {e.value}
+    return None
+
+
+def rule_r8(ctx):
+    n = 0
+    for m in ctx.repo.modules.values():
+        if not m.name.startswith("onnx_ir.passes.common.") or m.name.endswith("_test"):
+            continue
+        for f in m.all_funcs:
+            if isinstance(f.node, ast.Lambda) or f.parent is not None:
+                continue
+            blanks = [a for a in ast.walk(f.node) if isinstance(a, ast.Assign) and isinstance(a.value, ast.Constant) and a.value.value == ""
+                      and any(isinstance(t, ast.Attribute) and t.attr == "name" for t in a.targets)]
+            if not blanks:
+                continue
+            # use tests of the function: nested helpers that test .uses(), slices and indices under a .uses() expression
+            use_helpers = {g.name for g in f.nested.values() if any(isinstance(c, ast.Call) and isinstance(c.func, ast.Attribute) and c.func.attr == "uses"
+                                                                  for c in ast.walk(g.node))}
+            tested: set[int] = set()
+            for c in ast.walk(f.node):
+                if isinstance(c, ast.Call) and isinstance(c.func, ast.Name) and c.func.id in use_helpers and c.args:
+                    tested |= _const_ints(c.args[0]) or set()
+            for e in ast.walk(f.node):
+                if isinstance(e, (ast.GeneratorExp, ast.ListComp)) and any(isinstance(c, ast.Call) and isinstance(c.func, ast.Attribute) and c.func.attr == "uses" for c in ast.walk(e.elt)):
+                    it = e.generators[0].iter
+                    if isinstance(it, ast.Subscript) and isinstance(it.value, ast.Attribute) and it.value.attr == "outputs":
+                        tested |= _const_ints(it.slice) or set()
+                if isinstance(e, ast.Call) and isinstance(e.func, ast.Attribute) and e.func.attr == "uses" and isinstance(e.func.value, ast.Subscript) \
+                        and isinstance(e.func.value.value, ast.Attribute) and e.func.value.value.attr == "outputs":
+                    tested |= _const_ints(e.func.value.slice) or set()
+            for a in blanks:
+                t = next(t for t in a.targets if isinstance(t, ast.Attribute) and t.attr == "name")
+                tgt = t.value
+                n += 1
+                ok, why = False, ""
+                if isinstance(tgt, ast.Name):
+                    # same variable tested by an enclosing condition
+                    p = getattr(a, "_parent", None)
+                    while p is not None and p is not f.node:
+                        if isinstance(p, ast.If):
+                            txt = norm(p.test)
+                            if f"{tgt.id}.uses()" in txt and re.search(r"\b%s (not )?in \w*outputs\b" % re.escape(tgt.id), txt):
+                                ok = True
+                        p = getattr(p, "_parent", None)
+                    why = f"`{tgt.id}` is not under a condition testing `{tgt.id}.uses()` and its membership in the graph outputs"
+                elif isinstance(tgt, ast.Subscript) and isinstance(tgt.value, ast.Attribute) and tgt.value.attr == "outputs":
+                    idx = _const_ints(tgt.slice)
+                    if idx is None and isinstance(tgt.slice, ast.Name):
+                        lp = getattr(a, "_parent", None)
+                        while lp is not None and not (isinstance(lp, ast.For) and isinstance(lp.target, ast.Name) and lp.target.id == tgt.slice.id):
+                            lp = getattr(lp, "_parent", None)
+                        idx = _const_ints(lp.iter) if lp is not None else None
+                    ok = idx is not None and idx <= tested
+                    why = f"output positions {sorted(idx) if idx is not None else '?'} are blanked but only positions {sorted(tested)} are tested for use"
+                ctx.check("R8", f"{f.local}: `{norm(a)}` erases the name of a tested output only", ok, f, a,
+                          f"`{norm(a)}`: {why} - an output that is still consumed (or is a graph output) loses its name, so the consumer's input and the "
+                          "serialized graph output become the empty name",
+                          how="outputs whose name is set to \"\" vs outputs covered by a use test (same variable, or constant index sets / slices)",
+                          construct=f"untested output blanked in {f.local}")
+    ctx.require(n >= 2, f"only {n} name-erasing assignments found in the pass modules")
+
+
 def rule_r7(ctx):
     from ..shared import stale_snapshot_sites
 
@@ -732,3 +809,4 @@ def run(ctx):
 
     c05.rule_r5(ctx, rule="R6")
     rule_r7(ctx)
+    rule_r8(ctx)
